@@ -82,6 +82,8 @@ FINDINGS = {'KF-SEP': f_sep}
 
 
 def run(ctx):
+    if ctx.shard == 0:  # one long score: nothing may depend on the number of rows
+        ctx.check_all([{'doc': D.long_document(1200 + 41 * (ctx.seed % 7), ctx.seed)}], check)
     n = 350 if ctx.quick else 2500
     ctx.run_hypothesis(D.documents(D.profile('full')).map(lambda d: {'doc': d}), check, max_examples=n, label='full')
     ctx.run_hypothesis(D.documents(D.profile('sep')).map(lambda d: {'doc': d}), check, max_examples=max(40, n // 8),
